@@ -247,4 +247,36 @@ theorem decodeQuery_of_read_clean (n : Node) (q : Query) (h : Spec.CaldavWire.re
   rw [← decodeQuery_clean n]
   exact GoWebdav.Lemmas.CaldavAgree.decodeQuery_of_read (clean pc n) q h
 
+theorem map_clean_id (l : List Node) (h : ∀ x ∈ l, clean pc x = x) : l.map (clean pc) = l := by
+  induction l with
+  | nil => rfl
+  | cons x xs ih => rw [List.map_cons, h x (by simp), ih (fun y hy => h y (by simp [hy]))]
+
+theorem hrefs_clean (cs : List Node) :
+    (cleanList pc cs).filter (·.isElem nsDav "href") = cs.filter (·.isElem nsDav "href") := by
+  rw [filter_cleanList pc _ (byName_isElem nsDav "href")]
+  apply map_clean_id
+  intro x hx
+  have := (List.mem_filter.mp hx).2
+  cases x with
+  | elem q a k =>
+    simp only [Node.isElem, Bool.and_eq_true, beq_iff_eq] at this
+    exact clean_pcdata _ "href" (by simp [Node.localIs, this.2]) (by decide)
+  | text s => rfl
+  | comment s => rfl
+
+/-- the multiget decoder does not see insignificant content either -/
+theorem decodeMultiGet_clean (unescape : String → Option String) (n : Node) :
+    decodeMultiGet unescape (clean pc n) = decodeMultiGet unescape n := by
+  cases n with
+  | text s => rfl
+  | comment s => rfl
+  | elem name attrs cs =>
+    by_cases hp : pc name.loc = true
+    · simp [clean, hp]
+    · have hp' : pc name.loc = false := by simpa using hp
+      rw [clean_elem name attrs cs hp']
+      unfold decodeMultiGet
+      simp only [decPropReq_clean, hrefs_clean]
+
 end GoWebdav.Lemmas.CaldavNoise
